@@ -482,7 +482,12 @@ func (g *gen) sortSpec() bson.D {
 }
 
 func (g *gen) proj() bson.D {
-	switch g.r.IntN(4) {
+	switch g.r.IntN(6) {
+	case 4:
+		// exclusion inside an embedded document (the stored document must stay whole)
+		return bson.D{{Key: "o.p", Value: int32(0)}}
+	case 5:
+		return bson.D{{Key: "o.q", Value: int32(0)}, {Key: "s", Value: int32(0)}}
 	case 0:
 		return bson.D{{Key: "a", Value: int32(1)}}
 	case 1:
